@@ -1,22 +1,35 @@
 import VncModel.Threads.Refs
-/-! Life cycle of a client record: who may touch it when. -/
+/-! Life cycle of a client record: allocated → linked → (threads) → unlinked → freed, and who may
+touch it when.  `Life` is the inductive invariant; the consequences (`no_uaf`, no double free) are
+in NoUaf.lean. -/
+set_option linter.unusedSimpArgs false
 namespace VncModel.Threads
 
+/-- stages of rfbClientConnectionGone before the record is taken out of the list -/
 def gPre : GSt → Bool
   | .lockL | .lockR | .unlockLw | .waitD | .blocked | .wakeD | .unlockRw | .unlockR => true
   | _ => false
 
+/-- the input thread exists and its record is allocated -/
 def ipcAlive : IPc → Bool
   | .notStarted | .exiting | .exited => false
   | _ => true
 
+/-- ... and still in the client list -/
 def ipcLinked : IPc → Bool
   | .createO | .sel | .w1 | .f1 | .f2 | .e1 | .k _ | .x0 | .x0s | .x1 | .x2 | .x3 | .x4 => true
   | .g st => gPre st
   | _ => false
 
+/-- the input thread has created and not yet joined the output thread -/
 def ipcHasOut : IPc → Bool
   | .sel | .w1 | .f1 | .f2 | .e1 | .k _ | .x0 | .x0s | .x1 | .x2 | .x3 => true
+  | _ => false
+
+/-- after the join, up to the unlink -/
+def ipcPre : IPc → Bool
+  | .x4 => true
+  | .g st => gPre st
   | _ => false
 
 def opcRun : OPc → Bool
@@ -30,121 +43,807 @@ def crOf : CPc → Option (Nat × Bool)
   | .gone g c => some (c, gPre g)
   | _ => none
 
+/-- rfbNewFramebuffer's list of remembered clients is a local of the application thread -/
+def alkOf (s : State) (t : Tid) : List Nat :=
+  match t with
+  | .app => s.alk
+  | _ => []
+
+/-- the clients a calling thread relies on being in the list (besides the one it is creating): the
+ones it holds a counted reference on, the one the iterator found under the list mutex and is about to
+reference, the one whose reference it has just dropped while it still holds that client's
+refCountMutex -/
+def knownC (pc : CPc) (alk : List Nat) : List Nat :=
+  refsC pc alk ++
+  (match pc with
+   | .iter _ .incLock _ (some c) => [c]
+   | .iter _ .decSignal (some q) _ | .iter _ .decUnlock (some q) _ => [q]
+   | .nf .decSignal i | .nf .decUnlock i => (alk[i]?).toList
+   | _ => [])
+
 structure Life (s : State) : Prop where
   linked_alive : ∀ c, (s.cl c).linked = true → (s.cl c).alive = true
+  fresh : ∀ c, s.n ≤ c → (s.cl c).linked = false ∧ (s.cl c).alive = false
   inp_alive : ∀ c, ipcAlive (s.cl c).ipc = true → (s.cl c).alive = true
   inp_linked : ∀ c, ipcAlive (s.cl c).ipc = true → (s.cl c).linked = ipcLinked (s.cl c).ipc
-  inp_dead : ∀ c, (s.cl c).ipc = .exiting ∨ (s.cl c).ipc = .exited → (s.cl c).alive = false ∧ (s.cl c).linked = false
   out_inp : ∀ c, opcRun (s.cl c).opc = true → ipcHasOut (s.cl c).ipc = true
   out_ns : ∀ c, (s.cl c).ipc = .notStarted ∨ (s.cl c).ipc = .createO → (s.cl c).opc = .notStarted
-  cr_app : ∀ c b, crOf s.apc = some (c, b) → (s.cl c).alive = true ∧ (s.cl c).ipc = .notStarted ∧ (s.cl c).linked = b
-  cr_lis : ∀ c b, crOf s.lpc = some (c, b) → (s.cl c).alive = true ∧ (s.cl c).ipc = .notStarted ∧ (s.cl c).linked = b
+  cr : ∀ t c b, crOf (getC s t) = some (c, b) →
+        (s.cl c).alive = true ∧ (s.cl c).ipc = .notStarted ∧ (s.cl c).linked = b
   cr_excl : ∀ c b b', crOf s.apc = some (c, b) → crOf s.lpc = some (c, b') → False
-  refs_linked : ∀ t x, x ∈ refsOf s t → (s.cl x).linked = true
-  pend_app : ∀ p prev c, s.apc = .iter p .incLock prev (some c) → (s.cl c).linked = true
-  pend_lis : ∀ p prev c, s.lpc = .iter p .incLock prev (some c) → (s.cl c).linked = true
+  known : ∀ t x, x ∈ knownC (getC s t) (alkOf s t) → (s.cl x).linked = true
   zero_inp : ∀ c, (s.cl c).ipc = .g .unlockR → (s.cl c).refCount = 0
-  zero_app : ∀ c, s.apc = .gone .unlockR c → (s.cl c).refCount = 0
-  zero_lis : ∀ c, s.lpc = .gone .unlockR c → (s.cl c).refCount = 0
-  nouaf : s.uaf = false ∧ s.dfree = false
+  zero_c : ∀ t c, getC s t = .gone .unlockR c → (s.cl c).refCount = 0
 
 theorem life_init : Life State.init := by
-  constructor <;> simp [State.init, ipcAlive, opcRun, crOf, refsOf, refsC, refsO]
-  intro t x; cases t <;> simp [refsOf, refsC, refsO]
+  constructor
+  · intro c; simp [State.init]
+  · intro c; simp [State.init]
+  · intro c; simp [State.init, ipcAlive]
+  · intro c; simp [State.init, ipcAlive]
+  · intro c; simp [State.init, opcRun]
+  · intro c; simp [State.init]
+  · intro t c b; cases t <;> simp [State.init, getC, crOf]
+  · intro c b b'; simp [State.init, crOf]
+  · intro t x; cases t <;> simp [State.init, getC, alkOf, knownC, refsC]
+  · intro c; simp [State.init]
+  · intro t c; cases t <;> simp [State.init, getC]
 
-/-- `Life` only reads these parts of the state -/
+/-! ### the part of the state `Life` reads -/
+
 structure LSame (s s' : State) : Prop where
   cl : ∀ c, (s'.cl c).alive = (s.cl c).alive ∧ (s'.cl c).linked = (s.cl c).linked ∧
         (s'.cl c).refCount = (s.cl c).refCount ∧ (s'.cl c).ipc = (s.cl c).ipc ∧ (s'.cl c).opc = (s.cl c).opc
   apc : s'.apc = s.apc
   lpc : s'.lpc = s.lpc
   alk : s'.alk = s.alk
-  uaf : s'.uaf = s.uaf
-  dfree : s'.dfree = s.dfree
+  n : s'.n = s.n
 
-theorem refsOf_lsame {s s' : State} (h : LSame s s') (t : Tid) : refsOf s' t = refsOf s t := by
-  cases t <;> simp [refsOf, h.apc, h.lpc, h.alk, (h.cl _).2.2.2.2]
+theorem getC_lsame {s s' : State} (h : LSame s s') (t : Tid) : getC s' t = getC s t := by
+  cases t <;> simp [getC, h.apc, h.lpc]
+theorem alkOf_lsame {s s' : State} (h : LSame s s') (t : Tid) : alkOf s' t = alkOf s t := by
+  cases t <;> simp [alkOf, h.alk]
 
-theorem life_lsame {s s' : State} (h : LSame s s') (hl : Life s) : Life s' := by
+theorem life_of_lsame {s s' : State} (h : LSame s s') (hl : Life s) : Life s' := by
   have e := h.cl
   constructor
   · intro c; rw [(e c).1, (e c).2.1]; exact hl.linked_alive c
+  · intro c; rw [(e c).1, (e c).2.1, h.n]; exact hl.fresh c
   · intro c; rw [(e c).1, (e c).2.2.2.1]; exact hl.inp_alive c
   · intro c; rw [(e c).2.1, (e c).2.2.2.1]; exact hl.inp_linked c
-  · intro c; rw [(e c).1, (e c).2.1, (e c).2.2.2.1]; exact hl.inp_dead c
   · intro c; rw [(e c).2.2.2.1, (e c).2.2.2.2]; exact hl.out_inp c
   · intro c; rw [(e c).2.2.2.1, (e c).2.2.2.2]; exact hl.out_ns c
-  · intro c b; rw [h.apc, (e c).1, (e c).2.1, (e c).2.2.2.1]; exact hl.cr_app c b
-  · intro c b; rw [h.lpc, (e c).1, (e c).2.1, (e c).2.2.2.1]; exact hl.cr_lis c b
+  · intro t c b; rw [getC_lsame h, (e c).1, (e c).2.1, (e c).2.2.2.1]; exact hl.cr t c b
   · intro c b b'; rw [h.apc, h.lpc]; exact hl.cr_excl c b b'
-  · intro t x; rw [refsOf_lsame h, (e x).2.1]; exact hl.refs_linked t x
-  · intro p prev c; rw [h.apc, (e c).2.1]; exact hl.pend_app p prev c
-  · intro p prev c; rw [h.lpc, (e c).2.1]; exact hl.pend_lis p prev c
+  · intro t x; rw [getC_lsame h, alkOf_lsame h, (e x).2.1]; exact hl.known t x
   · intro c; rw [(e c).2.2.2.1, (e c).2.2.1]; exact hl.zero_inp c
-  · intro c; rw [h.apc, (e c).2.2.1]; exact hl.zero_app c
-  · intro c; rw [h.lpc, (e c).2.2.1]; exact hl.zero_lis c
-  · rw [h.uaf, h.dfree]; exact hl.nouaf
+  · intro t c; rw [getC_lsame h, (e c).2.2.1]; exact hl.zero_c t c
 
-theorem LSame.refl (s : State) : LSame s s := ⟨fun _ => ⟨rfl, rfl, rfl, rfl, rfl⟩, rfl, rfl, rfl, rfl, rfl⟩
+theorem LSame.refl (s : State) : LSame s s := ⟨fun _ => ⟨rfl, rfl, rfl, rfl, rfl⟩, rfl, rfl, rfl, rfl⟩
+theorem LSame.symm {a b : State} (h : LSame a b) : LSame b a :=
+  ⟨fun x => ⟨(h.cl x).1.symm, (h.cl x).2.1.symm, (h.cl x).2.2.1.symm, (h.cl x).2.2.2.1.symm, (h.cl x).2.2.2.2.symm⟩,
+   h.apc.symm, h.lpc.symm, h.alk.symm, h.n.symm⟩
 theorem LSame.trans {a b c : State} (h1 : LSame a b) (h2 : LSame b c) : LSame a c :=
   ⟨fun x => ⟨(h2.cl x).1.trans (h1.cl x).1, (h2.cl x).2.1.trans (h1.cl x).2.1, (h2.cl x).2.2.1.trans (h1.cl x).2.2.1,
             (h2.cl x).2.2.2.1.trans (h1.cl x).2.2.2.1, (h2.cl x).2.2.2.2.trans (h1.cl x).2.2.2.2⟩,
-   h2.apc.trans h1.apc, h2.lpc.trans h1.lpc, h2.alk.trans h1.alk, h2.uaf.trans h1.uaf, h2.dfree.trans h1.dfree⟩
+   h2.apc.trans h1.apc, h2.lpc.trans h1.lpc, h2.alk.trans h1.alk, h2.n.trans h1.n⟩
 
-theorem lsame_touch {s : State} {c : Nat} (ha : (s.cl c).alive = true) : LSame s (touch s c) := by
-  unfold touch; rw [if_pos ha]; exact LSame.refl s
+theorem life_iff_of_lsame {s s' : State} (h : LSame s s') : Life s' ↔ Life s :=
+  ⟨life_of_lsame h.symm, life_of_lsame h⟩
 
-theorem uaf_setOwn (s : State) (m : MCls) (c : Nat) (o : Option Tid) :
-    (setOwn s m c o).uaf = s.uaf ∧ (setOwn s m c o).dfree = s.dfree := by cases m <;> exact ⟨rfl, rfl⟩
-theorem uaf_setG (s : State) (t : Tid) (g : Ghost) : (setG s t g).uaf = s.uaf ∧ (setG s t g).dfree = s.dfree := by
-  cases t <;> exact ⟨rfl, rfl⟩
-
-theorem lsame_setOwn (s : State) (m : MCls) (c : Nat) (o : Option Tid) : LSame s (setOwn s m c o) := by
-  have h := coreEq_setOwn s m c o
-  have t := top_setOwn s m c o
-  refine ⟨fun x => ?_, t.1, t.2.1, t.2.2.2.1, (uaf_setOwn s m c o).1, (uaf_setOwn s m c o).2⟩
-  have := h x; unfold CoreEq at this
+theorem lsame_of_core {s s' : State} (hc : ∀ c, CoreEq (s'.cl c) (s.cl c))
+    (ht : s'.apc = s.apc ∧ s'.lpc = s.lpc ∧ s'.n = s.n ∧ s'.alk = s.alk ∧ s'.lisDown = s.lisDown ∧ s'.ljoined = s.ljoined ∧
+      s'.aapi = s.aapi) : LSame s s' := by
+  refine ⟨fun x => ?_, ht.1, ht.2.1, ht.2.2.2.1, ht.2.2.1⟩
+  have := hc x; unfold CoreEq at this
   exact ⟨this.1, this.2.1, this.2.2.2.2.2.1, this.2.2.2.2.2.2.2.1, this.2.2.2.2.2.2.2.2.1⟩
 
-theorem lsame_setG (s : State) (t : Tid) (g : Ghost) : LSame s (setG s t g) := by
-  have h := coreEq_setG s t g
-  have tp := top_setG s t g
-  refine ⟨fun x => ?_, tp.1, tp.2.1, tp.2.2.2.1, (uaf_setG s t g).1, (uaf_setG s t g).2⟩
-  have := h x; unfold CoreEq at this
-  exact ⟨this.1, this.2.1, this.2.2.2.2.2.1, this.2.2.2.2.2.2.2.1, this.2.2.2.2.2.2.2.2.1⟩
-
-theorem lsame_touchM {s : State} {m : MCls} {c : Nat} (ha : m.perClient = true → (s.cl c).alive = true) :
-    LSame s (touchM s m c) := by
-  unfold touchM; split
-  · rename_i h; exact lsame_touch (ha h)
-  · exact LSame.refl s
-
-theorem lsame_doLock {s a : State} {t : Tid} {m : MCls} {c : Nat} (h : doLock s t m c = some a)
-    (ha : m.perClient = true → (s.cl c).alive = true) : LSame s a := by
-  unfold doLock at h
-  split at h
-  · simp only [Option.some.injEq] at h; subst h
-    exact ((lsame_touchM ha).trans (lsame_setOwn _ m c _)).trans (lsame_setG _ t _)
-  · cases h
-
-/-- UNLOCK by the owner -/
-theorem lsame_doUnlock {s : State} {t : Tid} {m : MCls} {c : Nat} (ho : own s m c = some t)
-    (ha : m.perClient = true → (s.cl c).alive = true) : LSame s (doUnlock s t m c) := by
-  unfold doUnlock
-  simp only [own_touchM, ho, if_true]
-  exact ((lsame_touchM ha).trans (lsame_setOwn _ m c _)).trans (lsame_setG _ t _)
+theorem lsame_doLock {s a : State} {t : Tid} {m : MCls} {c : Nat} (h : doLock s t m c = some a) : LSame s a :=
+  lsame_of_core (coreEq_doLock h) (top_doLock h)
+theorem lsame_doUnlock (s : State) (t : Tid) (m : MCls) (c : Nat) : LSame s (doUnlock s t m c) :=
+  lsame_of_core (coreEq_doUnlock s t m c) (top_doUnlock s t m c)
+theorem lsame_touch (s : State) (c : Nat) : LSame s (touch s c) :=
+  lsame_of_core (fun c' => by rw [touch_cl]; exact CoreEq.rfl' _) (top_touch s c)
 
 /-- record updates `Life` does not look at -/
 def LifeNeutral (f : Client → Client) : Prop :=
   ∀ x, (f x).alive = x.alive ∧ (f x).linked = x.linked ∧ (f x).refCount = x.refCount ∧ (f x).ipc = x.ipc ∧ (f x).opc = x.opc
 
 theorem lsame_updCl (s : State) (c : Nat) (f : Client → Client) (hf : LifeNeutral f) : LSame s (updCl s c f) := by
-  refine ⟨fun x => ?_, rfl, rfl, rfl, rfl, rfl⟩
+  refine ⟨fun x => ?_, rfl, rfl, rfl, rfl⟩
   rw [updCl_cl]; split
   · rename_i h; subst h; exact hf _
   · exact ⟨rfl, rfl, rfl, rfl, rfl⟩
 
-theorem lsame_raise (s : State) (f : Flag) (h1 : f ≠ .uaf) (h2 : f ≠ .dfree) : LSame s (raise s f) := by
-  cases f <;> first | exact absurd rfl h1 | exact absurd rfl h2 | exact ⟨fun _ => ⟨rfl, rfl, rfl, rfl, rfl⟩, rfl, rfl, rfl, rfl, rfl⟩
+theorem lsame_raise (s : State) (f : Flag) : LSame s (raise s f) := by
+  cases f <;> exact ⟨fun _ => ⟨rfl, rfl, rfl, rfl, rfl⟩, rfl, rfl, rfl, rfl⟩
+theorem lsame_raiseIf (s : State) (f : Flag) (b : Bool) : LSame s (raiseIf s f b) := by
+  unfold raiseIf; split
+  · exact lsame_raise s f
+  · exact LSame.refl s
+
+@[simp] theorem life_doUnlock (s : State) (t : Tid) (m : MCls) (c : Nat) : Life (doUnlock s t m c) ↔ Life s :=
+  life_iff_of_lsame (lsame_doUnlock s t m c)
+theorem life_doLock {s a : State} {t : Tid} {m : MCls} {c : Nat} (h : doLock s t m c = some a) : Life a ↔ Life s :=
+  life_iff_of_lsame (lsame_doLock h)
+@[simp] theorem life_touch (s : State) (c : Nat) : Life (touch s c) ↔ Life s := life_iff_of_lsame (lsame_touch s c)
+@[simp] theorem life_raise (s : State) (f : Flag) : Life (raise s f) ↔ Life s := life_iff_of_lsame (lsame_raise s f)
+@[simp] theorem life_raiseIf (s : State) (f : Flag) (b : Bool) : Life (raiseIf s f b) ↔ Life s :=
+  life_iff_of_lsame (lsame_raiseIf s f b)
+theorem life_updCl (s : State) (c : Nat) (f : Client → Client) (hf : LifeNeutral f) : Life (updCl s c f) ↔ Life s :=
+  life_iff_of_lsame (lsame_updCl s c f hf)
+@[simp] theorem life_setAapi (s : State) (a : Api) : Life (setAapi s a) ↔ Life s :=
+  life_iff_of_lsame ⟨fun _ => ⟨rfl, rfl, rfl, rfl, rfl⟩, rfl, rfl, rfl, rfl⟩
+@[simp] theorem life_setLisDown (s : State) : Life (setLisDown s) ↔ Life s :=
+  life_iff_of_lsame ⟨fun _ => ⟨rfl, rfl, rfl, rfl, rfl⟩, rfl, rfl, rfl, rfl⟩
+@[simp] theorem life_setLjoined (s : State) : Life (setLjoined s) ↔ Life s :=
+  life_iff_of_lsame ⟨fun _ => ⟨rfl, rfl, rfl, rfl, rfl⟩, rfl, rfl, rfl, rfl⟩
+
+/-! ### observables under the program-counter setters -/
+
+@[simp] theorem getC_setO (s : State) (c : Nat) (pc : OPc) (t : Tid) : getC (setO s c pc) t = getC s t := by
+  cases t <;> rfl
+@[simp] theorem getC_setI (s : State) (c : Nat) (pc : IPc) (t : Tid) : getC (setI s c pc) t = getC s t := by
+  cases t <;> rfl
+@[simp] theorem getC_updCl (s : State) (c : Nat) (f) (t : Tid) : getC (updCl s c f) t = getC s t := by
+  cases t <;> rfl
+@[simp] theorem alkOf_setO (s : State) (c : Nat) (pc : OPc) (t : Tid) : alkOf (setO s c pc) t = alkOf s t := by
+  cases t <;> rfl
+@[simp] theorem alkOf_setI (s : State) (c : Nat) (pc : IPc) (t : Tid) : alkOf (setI s c pc) t = alkOf s t := by
+  cases t <;> rfl
+@[simp] theorem alkOf_updCl (s : State) (c : Nat) (f) (t : Tid) : alkOf (updCl s c f) t = alkOf s t := by
+  cases t <;> rfl
+@[simp] theorem alkOf_setC (s : State) (t0 : Tid) (pc : CPc) (t : Tid) : alkOf (setC s t0 pc) t = alkOf s t := by
+  cases t <;> simp [alkOf]
+theorem getC_setC (s : State) (t0 : Tid) (pc : CPc) (h0 : t0 = .app ∨ t0 = .lis) (t : Tid) :
+    getC (setC s t0 pc) t = if t = t0 then pc else getC s t := by
+  rcases h0 with rfl | rfl <;> cases t <;> simp [getC, setC]
+
+/-! ### generic update lemmas -/
+
+/-- an update of the record / thread program counters of client `c` alone -/
+theorem life_upd {X : State} {c : Nat} {f : Client → Client} (hl : Life X)
+    (h_la : (f (X.cl c)).linked = true → (f (X.cl c)).alive = true)
+    (h_fr : X.n ≤ c → (f (X.cl c)).linked = false ∧ (f (X.cl c)).alive = false)
+    (h_ia : ipcAlive (f (X.cl c)).ipc = true → (f (X.cl c)).alive = true)
+    (h_il : ipcAlive (f (X.cl c)).ipc = true → (f (X.cl c)).linked = ipcLinked (f (X.cl c)).ipc)
+    (h_oi : opcRun (f (X.cl c)).opc = true → ipcHasOut (f (X.cl c)).ipc = true)
+    (h_on : (f (X.cl c)).ipc = .notStarted ∨ (f (X.cl c)).ipc = .createO → (f (X.cl c)).opc = .notStarted)
+    (h_cr : ∀ t b, crOf (getC X t) = some (c, b) →
+        (f (X.cl c)).alive = true ∧ (f (X.cl c)).ipc = .notStarted ∧ (f (X.cl c)).linked = b)
+    (h_kn : ∀ t, c ∈ knownC (getC X t) (alkOf X t) → (f (X.cl c)).linked = true)
+    (h_zi : (f (X.cl c)).ipc = .g .unlockR → (f (X.cl c)).refCount = 0)
+    (h_zc : ∀ t, getC X t = .gone .unlockR c → (f (X.cl c)).refCount = 0) :
+    Life (updCl X c f) := by
+  constructor
+  · intro c'; rw [updCl_cl]; split
+    · rename_i e; subst e; exact h_la
+    · exact hl.linked_alive _
+  · intro c'; rw [updCl_cl, updCl_n]; split
+    · rename_i e; subst e; exact h_fr
+    · exact hl.fresh _
+  · intro c'; rw [updCl_cl]; split
+    · rename_i e; subst e; exact h_ia
+    · exact hl.inp_alive _
+  · intro c'; rw [updCl_cl]; split
+    · rename_i e; subst e; exact h_il
+    · exact hl.inp_linked _
+  · intro c'; rw [updCl_cl]; split
+    · rename_i e; subst e; exact h_oi
+    · exact hl.out_inp _
+  · intro c'; rw [updCl_cl]; split
+    · rename_i e; subst e; exact h_on
+    · exact hl.out_ns _
+  · intro t c' b; rw [updCl_cl, getC_updCl]; split
+    · rename_i e; subst e; exact h_cr t b
+    · exact hl.cr t _ b
+  · exact hl.cr_excl
+  · intro t x; rw [updCl_cl, getC_updCl, alkOf_updCl]; split
+    · rename_i e; subst e; exact h_kn t
+    · exact hl.known t _
+  · intro c'; rw [updCl_cl]; split
+    · rename_i e; subst e; exact h_zi
+    · exact hl.zero_inp _
+  · intro t c'; rw [updCl_cl, getC_updCl]; split
+    · rename_i e; subst e; exact h_zc t
+    · exact hl.zero_c t _
+
+/-- a calling thread `t` updates the record of client `c` and moves to `pc'` in one step -/
+theorem life_upd_setC {X : State} {c : Nat} {f : Client → Client} {t : Tid} {pc' : CPc}
+    (ht : t = .app ∨ t = .lis) (hl : Life X)
+    (h_la : (f (X.cl c)).linked = true → (f (X.cl c)).alive = true)
+    (h_fr : X.n ≤ c → (f (X.cl c)).linked = false ∧ (f (X.cl c)).alive = false)
+    (h_ia : ipcAlive (f (X.cl c)).ipc = true → (f (X.cl c)).alive = true)
+    (h_il : ipcAlive (f (X.cl c)).ipc = true → (f (X.cl c)).linked = ipcLinked (f (X.cl c)).ipc)
+    (h_oi : opcRun (f (X.cl c)).opc = true → ipcHasOut (f (X.cl c)).ipc = true)
+    (h_on : (f (X.cl c)).ipc = .notStarted ∨ (f (X.cl c)).ipc = .createO → (f (X.cl c)).opc = .notStarted)
+    (h_cr_o : ∀ t' b, t' ≠ t → crOf (getC X t') = some (c, b) →
+        (f (X.cl c)).alive = true ∧ (f (X.cl c)).ipc = .notStarted ∧ (f (X.cl c)).linked = b)
+    (h_cr_n : ∀ c' b, crOf pc' = some (c', b) →
+        ((updCl X c f).cl c').alive = true ∧ ((updCl X c f).cl c').ipc = .notStarted ∧ ((updCl X c f).cl c').linked = b)
+    (h_ex : ∀ t' c' b b', t' ≠ t → crOf pc' = some (c', b) → crOf (getC X t') = some (c', b') → False)
+    (h_kn_o : ∀ t', t' ≠ t → c ∈ knownC (getC X t') (alkOf X t') → (f (X.cl c)).linked = true)
+    (h_kn_n : ∀ y, y ∈ knownC pc' (alkOf X t) → ((updCl X c f).cl y).linked = true)
+    (h_zi : (f (X.cl c)).ipc = .g .unlockR → (f (X.cl c)).refCount = 0)
+    (h_zc_o : ∀ t', t' ≠ t → getC X t' = .gone .unlockR c → (f (X.cl c)).refCount = 0)
+    (h_zc_n : ∀ c', pc' = .gone .unlockR c' → ((updCl X c f).cl c').refCount = 0) :
+    Life (setC (updCl X c f) t pc') := by
+  have hg : ∀ t', getC (setC (updCl X c f) t pc') t' = if t' = t then pc' else getC X t' := by
+    intro t'; rw [getC_setC _ _ _ ht, getC_updCl]
+  constructor
+  · intro c'; rw [setC_cl, updCl_cl]; split
+    · rename_i e; subst e; exact h_la
+    · exact hl.linked_alive _
+  · intro c'; rw [setC_cl, updCl_cl, setC_n, updCl_n]; split
+    · rename_i e; subst e; exact h_fr
+    · exact hl.fresh _
+  · intro c'; rw [setC_cl, updCl_cl]; split
+    · rename_i e; subst e; exact h_ia
+    · exact hl.inp_alive _
+  · intro c'; rw [setC_cl, updCl_cl]; split
+    · rename_i e; subst e; exact h_il
+    · exact hl.inp_linked _
+  · intro c'; rw [setC_cl, updCl_cl]; split
+    · rename_i e; subst e; exact h_oi
+    · exact hl.out_inp _
+  · intro c'; rw [setC_cl, updCl_cl]; split
+    · rename_i e; subst e; exact h_on
+    · exact hl.out_ns _
+  · intro t' c' b; rw [hg, setC_cl]; split
+    · exact h_cr_n c' b
+    · rename_i hne; rw [updCl_cl]; split
+      · rename_i e; subst e; exact h_cr_o t' b hne
+      · exact hl.cr t' _ b
+  · intro c' b b' h1 h2
+    rcases ht with rfl | rfl
+    · have e1 := hg .app; have e2 := hg .lis
+      simp only [getC, if_true, reduceCtorEq, if_false] at e1 e2
+      rw [e1] at h1; rw [e2] at h2
+      exact h_ex .lis c' b b' (by simp) h1 h2
+    · have e1 := hg .app; have e2 := hg .lis
+      simp only [getC, if_true, reduceCtorEq, if_false] at e1 e2
+      rw [e1] at h1; rw [e2] at h2
+      exact h_ex .app c' b' b (by simp) h2 h1
+  · intro t' x; rw [hg, alkOf_setC, alkOf_updCl, setC_cl]; split
+    · rename_i e; subst e; exact h_kn_n x
+    · rename_i hne; rw [updCl_cl]; split
+      · rename_i e; subst e; exact h_kn_o t' hne
+      · exact hl.known t' _
+  · intro c'; rw [setC_cl, updCl_cl]; split
+    · rename_i e; subst e; exact h_zi
+    · exact hl.zero_inp _
+  · intro t' c'; rw [hg, setC_cl]; split
+    · exact h_zc_n c'
+    · rename_i hne; rw [updCl_cl]; split
+      · rename_i e; subst e; exact h_zc_o t' hne
+      · exact hl.zero_c t' _
+
+/-- only the program counter / local list of the calling thread `t` changes -/
+theorem life_core {X Y : State} {t : Tid} (ht : t = .app ∨ t = .lis) (hl : Life X)
+    (hcl : Y.cl = X.cl) (hn : Y.n = X.n)
+    (hget : ∀ t', t' ≠ t → getC Y t' = getC X t' ∧ alkOf Y t' = alkOf X t')
+    (h_cr : ∀ c b, crOf (getC Y t) = some (c, b) →
+        (X.cl c).alive = true ∧ (X.cl c).ipc = .notStarted ∧ (X.cl c).linked = b)
+    (h_ex : ∀ t' c b b', t' ≠ t → crOf (getC Y t) = some (c, b) → crOf (getC X t') = some (c, b') → False)
+    (h_kn : ∀ y, y ∈ knownC (getC Y t) (alkOf Y t) → (X.cl y).linked = true)
+    (h_zc : ∀ c, getC Y t = .gone .unlockR c → (X.cl c).refCount = 0) : Life Y := by
+  constructor
+  · intro c; rw [hcl]; exact hl.linked_alive c
+  · intro c; rw [hcl, hn]; exact hl.fresh c
+  · intro c; rw [hcl]; exact hl.inp_alive c
+  · intro c; rw [hcl]; exact hl.inp_linked c
+  · intro c; rw [hcl]; exact hl.out_inp c
+  · intro c; rw [hcl]; exact hl.out_ns c
+  · intro t' c b; rw [hcl]
+    by_cases e : t' = t
+    · subst e; exact h_cr c b
+    · rw [(hget t' e).1]; exact hl.cr t' c b
+  · intro c b b' h1 h2
+    rcases ht with rfl | rfl
+    · have := (hget .lis (by simp)).1; simp only [getC] at this
+      rw [this] at h2; exact h_ex .lis c b b' (by simp) h1 h2
+    · have := (hget .app (by simp)).1; simp only [getC] at this
+      rw [this] at h1; exact h_ex .app c b' b (by simp) h2 h1
+  · intro t' x; rw [hcl]
+    by_cases e : t' = t
+    · subst e; exact h_kn x
+    · rw [(hget t' e).1, (hget t' e).2]; exact hl.known t' x
+  · intro c; rw [hcl]; exact hl.zero_inp c
+  · intro t' c; rw [hcl]
+    by_cases e : t' = t
+    · subst e; exact h_zc c
+    · rw [(hget t' e).1]; exact hl.zero_c t' c
+
+theorem life_setC {X : State} {t : Tid} {pc' : CPc} (ht : t = .app ∨ t = .lis) (hl : Life X)
+    (h_cr : ∀ c b, crOf pc' = some (c, b) → (X.cl c).alive = true ∧ (X.cl c).ipc = .notStarted ∧ (X.cl c).linked = b)
+    (h_ex : ∀ t' c b b', t' ≠ t → crOf pc' = some (c, b) → crOf (getC X t') = some (c, b') → False)
+    (h_kn : ∀ y, y ∈ knownC pc' (alkOf X t) → (X.cl y).linked = true)
+    (h_zc : ∀ c, pc' = .gone .unlockR c → (X.cl c).refCount = 0) : Life (setC X t pc') := by
+  have hg : getC (setC X t pc') t = pc' := by rw [getC_setC _ _ _ ht]; simp
+  apply life_core ht hl (setC_cl X t pc') (setC_n X t pc')
+  · intro t' hne; rw [getC_setC _ _ _ ht, if_neg hne, alkOf_setC]; exact ⟨rfl, rfl⟩
+  · rw [hg]; exact h_cr
+  · rw [hg]; exact h_ex
+  · rw [hg, alkOf_setC]; exact h_kn
+  · rw [hg]; exact h_zc
+
+/-- ... and the list of remembered clients (a local of the application thread) -/
+theorem life_setAlkT_setC {X : State} {t : Tid} {pc' : CPc} {l : List Nat} (ht : t = .app ∨ t = .lis) (hl : Life X)
+    (h_cr : ∀ c b, crOf pc' = some (c, b) → (X.cl c).alive = true ∧ (X.cl c).ipc = .notStarted ∧ (X.cl c).linked = b)
+    (h_ex : ∀ t' c b b', t' ≠ t → crOf pc' = some (c, b) → crOf (getC X t') = some (c, b') → False)
+    (h_kn : ∀ y, y ∈ knownC pc' (if t = .app then l else []) → (X.cl y).linked = true)
+    (h_zc : ∀ c, pc' = .gone .unlockR c → (X.cl c).refCount = 0) : Life (setC (setAlkT X t l) t pc') := by
+  have hg : getC (setC (setAlkT X t l) t pc') t = pc' := by rw [getC_setC _ _ _ ht]; simp
+  have ha : alkOf (setAlkT X t l) t = if t = .app then l else [] := by
+    rcases ht with rfl | rfl <;> simp [alkOf, setAlkT, setAlk]
+  apply life_core ht hl
+  · rw [setC_cl, cl_setAlkT]
+  · rw [setC_n, n_setAlkT]
+  · intro t' hne; rw [getC_setC _ _ _ ht, if_neg hne, alkOf_setC]
+    refine ⟨?_, ?_⟩
+    · cases t' <;> simp [getC]
+    · rcases ht with rfl | rfl <;> cases t' <;> simp [alkOf, setAlkT, setAlk] at hne ⊢
+  · rw [hg]; exact h_cr
+  · rw [hg]; exact h_ex
+  · rw [hg, alkOf_setC, ha]; exact h_kn
+  · rw [hg]; exact h_zc
+
+/-- a move that creates no new obligations: the clients the thread relies on afterwards are among
+those it relied on before (or known to be linked), the client under construction (if any) stays in
+the same condition -/
+theorem life_move {X : State} {t : Tid} {pc' : CPc} (ht : t = .app ∨ t = .lis) (hl : Life X)
+    (h_cr : crOf pc' = none ∨ crOf pc' = crOf (getC X t))
+    (h_kn : ∀ y, y ∈ knownC pc' (alkOf X t) → y ∈ knownC (getC X t) (alkOf X t) ∨ (X.cl y).linked = true)
+    (h_zc : ∀ c, pc' = .gone .unlockR c → (X.cl c).refCount = 0) : Life (setC X t pc') := by
+  apply life_setC ht hl
+  · intro c b h; rcases h_cr with e | e
+    · rw [e] at h; cases h
+    · rw [e] at h; exact hl.cr t c b h
+  · intro t' c b b' hne h h'; rcases h_cr with e | e
+    · rw [e] at h; cases h
+    · rw [e] at h
+      rcases ht with rfl | rfl
+      · cases t' <;> simp [getC, crOf] at h' hne
+        exact hl.cr_excl c b b' h h'
+      · cases t' <;> simp [getC, crOf] at h' hne
+        exact hl.cr_excl c b' b h' h
+  · intro y hy; rcases h_kn y hy with h | h
+    · exact hl.known t y h
+    · exact h
+  · exact h_zc
+
+/-- two different threads are never constructing / tearing down the same record -/
+theorem cr_excl' {X : State} (hl : Life X) {t t' : Tid} (hne : t' ≠ t) {c : Nat} {b b' : Bool}
+    (h : crOf (getC X t) = some (c, b)) (h' : crOf (getC X t') = some (c, b')) : False := by
+  cases t <;> cases t' <;> simp [getC, crOf] at h h' hne
+  · exact hl.cr_excl c b b' h h'
+  · exact hl.cr_excl c b' b h' h
+
+/-- the calling thread `t` updates the record it is constructing / tearing down -/
+theorem life_cr_upd {X : State} {c : Nat} {f : Client → Client} {t : Tid} {pc' : CPc} {b : Bool}
+    (ht : t = .app ∨ t = .lis) (hl : Life X) (hcur : crOf (getC X t) = some (c, b))
+    (hf : (f (X.cl c)).ipc = .notStarted ∧ (f (X.cl c)).opc = (X.cl c).opc)
+    (h_la : (f (X.cl c)).linked = true → (f (X.cl c)).alive = true)
+    (h_new : crOf pc' = none ∨ ∃ b', crOf pc' = some (c, b') ∧ (f (X.cl c)).alive = true ∧ (f (X.cl c)).linked = b')
+    (h_kn_o : ∀ t', t' ≠ t → c ∈ knownC (getC X t') (alkOf X t') → (f (X.cl c)).linked = true)
+    (h_kn_n : knownC pc' (alkOf X t) = [])
+    (h_zc_n : ∀ c', pc' ≠ .gone .unlockR c') : Life (setC (updCl X c f) t pc') := by
+  obtain ⟨ha, hi, _⟩ := hl.cr t c b hcur
+  have ho := hl.out_ns c (Or.inl hi)
+  apply life_upd_setC ht hl
+  · exact h_la
+  · intro hn; have := (hl.fresh c hn).2; rw [ha] at this; cases this
+  · intro e; rw [hf.1] at e; simp [ipcAlive] at e
+  · intro e; rw [hf.1] at e; simp [ipcAlive] at e
+  · intro e; rw [hf.2, ho] at e; simp [opcRun] at e
+  · intro _; rw [hf.2]; exact ho
+  · intro t' b' hne h'; exact (cr_excl' hl hne hcur h').elim
+  · intro c' b' h'
+    rcases h_new with e | ⟨b'', e, h1, h2⟩
+    · rw [e] at h'; cases h'
+    · rw [e] at h'; simp only [Option.some.injEq, Prod.mk.injEq] at h'
+      obtain ⟨rfl, rfl⟩ := h'
+      rw [updCl_cl_same]; exact ⟨h1, hf.1, h2⟩
+  · intro t' c' b' b'' hne h h'
+    rcases h_new with e | ⟨b3, e, _, _⟩
+    · rw [e] at h; cases h
+    · rw [e] at h; simp only [Option.some.injEq, Prod.mk.injEq] at h
+      obtain ⟨rfl, rfl⟩ := h
+      exact cr_excl' hl hne hcur h'
+  · exact h_kn_o
+  · intro y hy; rw [h_kn_n] at hy; cases hy
+  · intro e; rw [hf.1] at e; cases e
+  · intro t' hne h'; exact (cr_excl' hl hne hcur (b' := true) (by rw [h']; simp [crOf, gPre])).elim
+  · intro c' e; exact absurd e (h_zc_n c')
+
+/-! ### output thread -/
+
+/-- any move of a running output thread -/
+theorem life_setO {X : State} {c : Nat} {pc' : OPc} (hl : Life X) (hrun : opcRun (X.cl c).opc = true) :
+    Life (setO X c pc') := by
+  have hho := hl.out_inp c hrun
+  unfold setO
+  apply life_upd hl
+  · exact hl.linked_alive c
+  · exact hl.fresh c
+  · exact hl.inp_alive c
+  · exact hl.inp_linked c
+  · intro _; exact hho
+  · intro h; simp only [] at h; rcases h with h | h <;> (rw [h] at hho; simp [ipcHasOut] at hho)
+  · exact fun t b => hl.cr t c b
+  · exact fun t => hl.known t c
+  · exact hl.zero_inp c
+  · exact fun t => hl.zero_c t c
+
+theorem life_signalU {X : State} (c : Nat) (hl : Life X) : Life (signalU X c) := by
+  unfold signalU; split
+  · rename_i h; exact life_setO hl (by simp [h, opcRun])
+  · exact hl
+
+/-! ### reference count -/
+
+theorem life_refCount {X : State} {c : Nat} (g : Nat → Nat) (hl : Life X) (hnp : (X.cl c).ipc ≠ .g .unlockR)
+    (hnc : ∀ t, getC X t ≠ .gone .unlockR c) : Life (updCl X c (fun x => { x with refCount := g x.refCount })) := by
+  apply life_upd hl
+  · exact hl.linked_alive c
+  · exact hl.fresh c
+  · exact hl.inp_alive c
+  · exact hl.inp_linked c
+  · exact hl.out_inp c
+  · exact hl.out_ns c
+  · exact fun t b => hl.cr t c b
+  · exact fun t => hl.known t c
+  · intro h; exact absurd h hnp
+  · intro t h; exact absurd h (hnc t)
+
+theorem lsame_setG (s : State) (t : Tid) (g : Ghost) : LSame s (setG s t g) :=
+  lsame_of_core (coreEq_setG s t g) (by have := top_setG s t g; exact this)
+
+theorem life_incRef {X : State} {t : Tid} {c : Nat} (hl : Life X) (hnp : (X.cl c).ipc ≠ .g .unlockR)
+    (hnc : ∀ t, getC X t ≠ .gone .unlockR c) : Life (incRef X t c) := by
+  unfold incRef
+  exact (life_iff_of_lsame (lsame_setG _ t _)).2 (life_refCount (· + 1) hl hnp hnc)
+
+theorem life_decRef {X : State} {t : Tid} {c : Nat} (hl : Life X) (hnp : (X.cl c).ipc ≠ .g .unlockR)
+    (hnc : ∀ t, getC X t ≠ .gone .unlockR c) : Life (decRef X t c) := by
+  unfold decRef
+  split
+  · exact (life_iff_of_lsame (lsame_setG _ t _)).2 (life_refCount (· - 1) hl hnp hnc)
+  · exact (life_raise _ _).2 (life_refCount (· - 1) hl hnp hnc)
+
+/-- whoever has just locked refCountMutex(c) knows that nobody is at the point of unlinking c -/
+theorem not_pinned_of_lock {s s1 : State} {t : Tid} {c : Nat} (hr : Reach s) (h : doLock s t .R c = some s1) :
+    (s1.cl c).ipc ≠ .g .unlockR ∧ ∀ t', getC s1 t' ≠ .gone .unlockR c := by
+  have hfree : own s .R c = none := by
+    unfold doLock at h; split at h
+    · assumption
+    · cases h
+  have hno : ∀ t', (MCls.R, c) ∈ heldOf s t' → False := by
+    intro t' hm
+    have := (own_iff_table hr t' .R c).2 (by simpa [mkey, MCls.perClient] using hm)
+    rw [hfree] at this; cases this
+  refine ⟨?_, ?_⟩
+  · rw [ipc_doLock h]; intro e
+    exact hno (.inp c) (by simp [heldOf, e, heldI, heldG])
+  · intro t'; rw [getC_lsame (lsame_doLock h)]; intro e
+    cases t' with
+    | app => exact hno .app (by simp [getC] at e; simp [heldOf, e, heldC, heldG])
+    | lis => exact hno .lis (by simp [getC] at e; simp [heldOf, e, heldC, heldG])
+    | inp _ => simp [getC] at e
+    | out _ => simp [getC] at e
+
+theorem life_incRef_locked {s s1 : State} {t : Tid} {c : Nat} (hr : Reach s) (hl : Life s)
+    (h : doLock s t .R c = some s1) : Life (incRef s1 t c) :=
+  life_incRef ((life_doLock h).2 hl) (not_pinned_of_lock hr h).1 (not_pinned_of_lock hr h).2
+
+theorem life_decRef_locked {s s1 : State} {t : Tid} {c : Nat} (hr : Reach s) (hl : Life s)
+    (h : doLock s t .R c = some s1) : Life (decRef s1 t c) :=
+  life_decRef ((life_doLock h).2 hl) (not_pinned_of_lock hr h).1 (not_pinned_of_lock hr h).2
+
+/-! ### input thread -/
+
+/-- a move of the input thread that keeps "alive" and "linked" -/
+theorem life_setI {X : State} {c : Nat} {pc' : IPc} (hl : Life X) (h0 : ipcAlive (X.cl c).ipc = true)
+    (ha : ipcAlive pc' = true) (hlk : ipcLinked pc' = ipcLinked (X.cl c).ipc)
+    (hho : ipcHasOut pc' = true ∨ ipcHasOut (X.cl c).ipc = false ∨ opcRun (X.cl c).opc = false) (hns : pc' ≠ .createO)
+    (hz : pc' = .g .unlockR → (X.cl c).refCount = 0) : Life (setI X c pc') := by
+  unfold setI
+  apply life_upd hl
+  · exact hl.linked_alive c
+  · exact hl.fresh c
+  · intro _; exact hl.inp_alive c h0
+  · intro _; simp only []; rw [hlk]; exact hl.inp_linked c h0
+  · intro ho; simp only [] at ho ⊢
+    rcases hho with h | h | h
+    · exact h
+    · have := hl.out_inp c ho; rw [h] at this; cases this
+    · rw [h] at ho; cases ho
+  · intro h; simp only [] at h; rcases h with h | h
+    · rw [h] at ha; simp [ipcAlive] at ha
+    · exact absurd h hns
+  · intro t b h; have := (hl.cr t c b h).2.1; rw [this] at h0; simp [ipcAlive] at h0
+  · exact fun t => hl.known t c
+  · exact hz
+  · exact fun t => hl.zero_c t c
+
+theorem life_signalD {X : State} (c : Nat) (hl : Life X) : Life (signalD X c) := by
+  unfold signalD
+  simp only []
+  have h1 : Life (if (X.cl c).ipc = .g .blocked then setI X c (.g .wakeD) else X) := by
+    split
+    · rename_i h
+      exact life_setI hl (by simp [h, ipcAlive]) (by simp [ipcAlive]) (by simp [h, ipcLinked, gPre])
+        (by simp [h, ipcHasOut]) (by simp) (by simp)
+    · exact hl
+  generalize (if (X.cl c).ipc = .g .blocked then setI X c (.g .wakeD) else X) = Y at h1
+  have h2 : Life (if Y.apc = .gone .blocked c then setC Y .app (.gone .wakeD c) else Y) := by
+    split
+    · rename_i h
+      exact life_move (Or.inl rfl) h1 (Or.inr (by simp [getC, h, crOf, gPre])) (by simp [knownC, refsC]) (by simp)
+    · exact h1
+  generalize (if Y.apc = .gone .blocked c then setC Y .app (.gone .wakeD c) else Y) = Z at h2
+  split
+  · rename_i h
+    exact life_move (Or.inr rfl) h2 (Or.inr (by simp [getC, h, crOf, gPre])) (by simp [knownC, refsC]) (by simp)
+  · exact h2
+
+theorem updCl_updCl (X : State) (c : Nat) (f g : Client → Client) :
+    updCl (updCl X c f) c g = updCl X c (fun x => g (f x)) := by
+  unfold updCl; simp only [State.mk.injEq, and_true, true_and]
+  funext j; by_cases h : j = c <;> simp [h]
+
+/-- pthread_create of the output thread -/
+theorem life_startOut {X : State} {c : Nat} (hl : Life X) (h : (X.cl c).ipc = .createO) :
+    Life (setI (setO X c .top) c .sel) := by
+  have ha := hl.inp_alive c (by simp [h, ipcAlive])
+  have hk := hl.inp_linked c (by simp [h, ipcAlive])
+  unfold setI setO; rw [updCl_updCl]
+  apply life_upd hl
+  · intro _; exact ha
+  · exact hl.fresh c
+  · intro _; exact ha
+  · intro _; simp only []; rw [hk, h]; simp [ipcLinked]
+  · intro _; simp [ipcHasOut]
+  · intro e; simp at e
+  · intro t b e; have := (hl.cr t c b e).2.1; rw [this] at h; cases h
+  · exact fun t => hl.known t c
+  · intro e; simp at e
+  · exact fun t => hl.zero_c t c
+
+/-- the record leaves the client list (rfbClientConnectionGone in the input thread) -/
+theorem life_unlink_inp {X : State} {c : Nat} (hl : Life X) (h : (X.cl c).ipc = .g .unlockR)
+    (hex : ∀ t, c ∉ knownC (getC X t) (alkOf X t)) :
+    Life (setI (updCl X c (fun x => { x with linked := false })) c (.g .unlockL)) := by
+  have ha := hl.inp_alive c (by simp [h, ipcAlive])
+  unfold setI; rw [updCl_updCl]
+  apply life_upd hl
+  · intro e; simp at e
+  · intro hn; have := (hl.fresh c hn).2; rw [ha] at this; cases this
+  · intro _; exact ha
+  · intro _; simp [ipcLinked, gPre]
+  · intro ho; have := hl.out_inp c ho; rw [h] at this; simp [ipcHasOut] at this
+  · intro e; simp at e
+  · intro t b e; have := (hl.cr t c b e).2.1; rw [this] at h; cases h
+  · intro t e; exact absurd e (hex t)
+  · intro e; simp at e
+  · intro t e; have := (hl.cr t c true (by rw [e]; simp [crOf, gPre])).2.1; rw [this] at h; cases h
+
+/-- free(cl) at the end of rfbClientConnectionGone in the input thread -/
+theorem life_free_inp {X : State} {c : Nat} (hl : Life X) (h : (X.cl c).ipc = .g .unlockS) :
+    Life (setI (updCl X c (fun x => { x with alive := false })) c .exiting) := by
+  have hk := hl.inp_linked c (by simp [h, ipcAlive])
+  rw [h] at hk; simp only [ipcLinked, gPre] at hk
+  unfold setI; rw [updCl_updCl]
+  apply life_upd hl
+  · intro e; simp only [] at e; rw [hk] at e; cases e
+  · intro _; exact ⟨hk, rfl⟩
+  · intro e; simp [ipcAlive] at e
+  · intro e; simp [ipcAlive] at e
+  · intro ho; have := hl.out_inp c ho; rw [h] at this; simp [ipcHasOut] at this
+  · intro e; simp at e
+  · intro t b e; have := (hl.cr t c b e).2.1; rw [this] at h; cases h
+  · intro t e; have := hl.known t c e; rw [hk] at this; cases this
+  · intro e; simp at e
+  · intro t e; have := (hl.cr t c true (by rw [e]; simp [crOf, gPre])).2.1; rw [this] at h; cases h
+
+/-- the thread function returns -/
+theorem life_exit_inp {X : State} {c : Nat} (hl : Life X) (h : (X.cl c).ipc = .exiting) : Life (setI X c .exited) := by
+  unfold setI
+  apply life_upd hl
+  · exact hl.linked_alive c
+  · exact hl.fresh c
+  · intro e; simp [ipcAlive] at e
+  · intro e; simp [ipcAlive] at e
+  · intro ho; have := hl.out_inp c ho; rw [h] at this; simp [ipcHasOut] at this
+  · intro e; simp at e
+  · intro t b e; have := (hl.cr t c b e).2.1; rw [this] at h; cases h
+  · exact fun t => hl.known t c
+  · intro e; simp at e
+  · exact fun t => hl.zero_c t c
+
+/-! ### nobody else relies on a record that is being unlinked -/
+
+theorem known_cases {pc : CPc} {alk : List Nat} {x : Nat} (h : x ∈ knownC pc alk) :
+    x ∈ refsC pc alk ∨ (MCls.R, x) ∈ heldC pc alk ∨ mL ∈ heldC pc alk := by
+  unfold knownC at h
+  rw [List.mem_append] at h
+  rcases h with h | h
+  · exact Or.inl h
+  · right
+    split at h
+    · simp at h; subst h; right; simp [heldC, heldIt]
+    · simp at h; subst h; left; simp [heldC, heldIt]
+    · simp at h; subst h; left; simp [heldC, heldIt]
+    · simp at h; left; simp [heldC, h]
+    · simp at h; left; simp [heldC, h]
+    · simp at h
+
+theorem unlink_excl {s : State} {me : Tid} {c : Nat} (hr : Reach s) (hz : (s.cl c).refCount = 0)
+    (hR : (MCls.R, c) ∈ heldOf s me) (hL : mL ∈ heldOf s me) (t : Tid) (hne : t ≠ me) :
+    c ∉ knownC (getC s t) (alkOf s t) := by
+  intro hk
+  have hRo : own s .R c = some me := (own_iff_table hr me .R c).2 (by simpa [mkey, MCls.perClient] using hR)
+  have hLo : own s .L 0 = some me := (own_iff_table hr me .L 0).2 (by simpa [mkey, MCls.perClient, mL] using hL)
+  have hcnt := refCount_exact hr c
+  rw [hz] at hcnt
+  have key : ∀ t', (t' = .app ∨ t' = .lis) → t' ≠ me → c ∈ knownC (getC s t') (alkOf s t') →
+      heldOf s t' = heldC (getC s t') (alkOf s t') → refsOf s t' = refsC (getC s t') (alkOf s t') →
+      (refsOf s t').count c = 0 → False := by
+    intro t' _ hne' hk' hh hrf hc0
+    rcases known_cases hk' with h | h | h
+    · rw [← hrf] at h; have := List.count_pos_iff.2 h; omega
+    · rw [← hh] at h
+      have := (own_iff_table hr t' .R c).2 (by simpa [mkey, MCls.perClient] using h)
+      rw [hRo] at this; exact hne' (Option.some.inj this).symm
+    · rw [← hh] at h
+      have := (own_iff_table hr t' .L 0).2 (by simpa [mkey, MCls.perClient, mL] using h)
+      rw [hLo] at this; exact hne' (Option.some.inj this).symm
+  cases t with
+  | app => exact key .app (Or.inl rfl) hne hk rfl rfl (by omega)
+  | lis => exact key .lis (Or.inr rfl) hne hk rfl rfl (by omega)
+  | inp _ => simp [getC, knownC, refsC] at hk
+  | out _ => simp [getC, knownC, refsC] at hk
+
+/-! ### calling threads: creation and teardown of a record -/
+
+theorem crOf_finished (t : Tid) : crOf (finished t) = none := by cases t <;> rfl
+theorem knownC_finished (t : Tid) (alk : List Nat) : knownC (finished t) alk = [] := by cases t <;> rfl
+theorem finished_ne_gone (t : Tid) (g : GSt) (c : Nat) : finished t ≠ .gone g c := by cases t <;> simp [finished]
+
+/-- the record enters the client list (rfbNewClient) -/
+theorem life_link {X : State} {c : Nat} {t : Tid} (ht : t = .app ∨ t = .lis) (hl : Life X)
+    (h : getC X t = .cr .insLock c) :
+    Life (setC (updCl X c (fun x => { x with linked := true })) t (.cr .insUnlock c)) := by
+  have hcur : crOf (getC X t) = some (c, false) := by rw [h]; rfl
+  obtain ⟨ha, _, _⟩ := hl.cr t c false hcur
+  exact life_cr_upd ht hl hcur ⟨(hl.cr t c false hcur).2.1, rfl⟩ (fun _ => ha)
+    (Or.inr ⟨true, rfl, ha, rfl⟩) (fun _ _ _ => rfl) (by simp [knownC, refsC]) (by simp)
+
+/-- the record leaves the client list (rfbClientConnectionGone after a failed creation) -/
+theorem life_unlink_c {X : State} {c : Nat} {t : Tid} (ht : t = .app ∨ t = .lis) (hl : Life X)
+    (h : getC X t = .gone .unlockR c) (hex : ∀ t', t' ≠ t → c ∉ knownC (getC X t') (alkOf X t')) :
+    Life (setC (updCl X c (fun x => { x with linked := false })) t (.gone .unlockL c)) := by
+  have hcur : crOf (getC X t) = some (c, true) := by rw [h]; rfl
+  obtain ⟨ha, _, _⟩ := hl.cr t c true hcur
+  exact life_cr_upd ht hl hcur ⟨(hl.cr t c true hcur).2.1, rfl⟩ (by intro e; simp at e)
+    (Or.inr ⟨false, rfl, ha, rfl⟩) (fun t' hne e => absurd e (hex t' hne)) (by simp [knownC, refsC]) (by simp)
+
+/-- free(cl) at the end of rfbClientConnectionGone after a failed creation -/
+theorem life_free_c {X : State} {c : Nat} {t : Tid} (ht : t = .app ∨ t = .lis) (hl : Life X)
+    (h : getC X t = .gone .unlockS c) :
+    Life (setC (updCl X c (fun x => { x with alive := false })) t (finished t)) := by
+  have hcur : crOf (getC X t) = some (c, false) := by rw [h]; rfl
+  obtain ⟨_, _, hk⟩ := hl.cr t c false hcur
+  exact life_cr_upd ht hl hcur ⟨(hl.cr t c false hcur).2.1, rfl⟩ (by intro e; simp only [] at e; rw [hk] at e; cases e)
+    (Or.inl (crOf_finished t)) (fun t' _ e => by have := hl.known t' c e; rw [hk] at this; cases this)
+    (knownC_finished t _) (fun c' => finished_ne_gone t _ c')
+
+/-- pthread_create of the input thread -/
+theorem life_startInp {X : State} {c : Nat} {t : Tid} (ht : t = .app ∨ t = .lis) (hl : Life X)
+    (h : getC X t = .cr .create c) : Life (setC (setI X c .createO) t (finished t)) := by
+  have hcur : crOf (getC X t) = some (c, true) := by rw [h]; rfl
+  obtain ⟨ha, hi, hk⟩ := hl.cr t c true hcur
+  have ho := hl.out_ns c (Or.inl hi)
+  unfold setI
+  apply life_upd_setC ht hl
+  · exact hl.linked_alive c
+  · exact hl.fresh c
+  · intro _; exact ha
+  · intro _; simp only []; rw [hk]; rfl
+  · intro e; simp only [] at e; rw [ho] at e; simp [opcRun] at e
+  · intro _; exact ho
+  · intro t' b' hne h'; exact (cr_excl' hl hne hcur h').elim
+  · intro c' b' h'; rw [crOf_finished] at h'; cases h'
+  · intro t' c' b' b'' _ h'; rw [crOf_finished] at h'; cases h'
+  · exact fun t' _ => hl.known t' c
+  · intro y hy; rw [knownC_finished] at hy; cases hy
+  · intro e; simp at e
+  · exact fun t' _ => hl.zero_c t' c
+  · intro c' e; exact absurd e (finished_ne_gone t _ c')
+
+/-- calloc of a new record: its index has never been used -/
+theorem life_alloc {s : State} {t : Tid} (ht : t = .app ∨ t = .lis) (hl : Life s) (hb : Bnd s) :
+    Life (setC (setN (updCl s s.n Client.fresh) (s.n + 1)) t (.cr .insLock s.n)) := by
+  have hfr := hl.fresh s.n (Nat.le_refl _)
+  have hi : (s.cl s.n).ipc = .notStarted := by
+    apply Classical.byContradiction; intro e; have := hb.thr s.n (Or.inl e); omega
+  have ho : (s.cl s.n).opc = .notStarted := by
+    apply Classical.byContradiction; intro e; have := hb.thr s.n (Or.inr e); omega
+  have hg : ∀ t', getC (setC (setN (updCl s s.n Client.fresh) (s.n + 1)) t (.cr .insLock s.n)) t' =
+      if t' = t then .cr .insLock s.n else getC s t' := by
+    intro t'; rw [getC_setC _ _ _ ht]; split
+    · rfl
+    · cases t' <;> rfl
+  have hcl : ∀ c', (setC (setN (updCl s s.n Client.fresh) (s.n + 1)) t (.cr .insLock s.n)).cl c' =
+      if c' = s.n then Client.fresh (s.cl s.n) else s.cl c' := by
+    intro c'; rw [setC_cl, cl_setN, updCl_cl]
+  have hnocr : ∀ t' b, crOf (getC s t') = some (s.n, b) → False := by
+    intro t' b e; have := (hl.cr t' _ b e).1; rw [hfr.2] at this; cases this
+  constructor
+  · intro c'; rw [hcl]; split
+    · intro e; simp [Client.fresh] at e
+    · exact hl.linked_alive c'
+  · intro c'; rw [hcl, setC_n]; simp only [setN]; intro hn; split
+    · omega
+    · exact hl.fresh c' (by omega)
+  · intro c'; rw [hcl]; split
+    · simp [Client.fresh, hi, ipcAlive]
+    · exact hl.inp_alive c'
+  · intro c'; rw [hcl]; split
+    · simp [Client.fresh, hi, ipcAlive]
+    · exact hl.inp_linked c'
+  · intro c'; rw [hcl]; split
+    · simp [Client.fresh, ho, opcRun]
+    · exact hl.out_inp c'
+  · intro c'; rw [hcl]; split
+    · simp [Client.fresh, ho]
+    · exact hl.out_ns c'
+  · intro t' c' b; rw [hg, hcl]; split
+    · intro e; simp only [crOf, Option.some.injEq, Prod.mk.injEq] at e
+      obtain ⟨rfl, rfl⟩ := e
+      simp [Client.fresh, hi]
+    · intro e; split
+      · rename_i e2; subst e2; exact (hnocr t' b e).elim
+      · exact hl.cr t' c' b e
+  · intro c' b b' h1 h2
+    have e1 := hg .app; have e2 := hg .lis
+    simp only [getC] at e1 e2
+    rw [e1] at h1; rw [e2] at h2
+    rcases ht with rfl | rfl
+    · simp only [if_true, reduceCtorEq, if_false, crOf, Option.some.injEq, Prod.mk.injEq] at h1 h2
+      obtain ⟨rfl, rfl⟩ := h1
+      exact hnocr .lis b' h2
+    · simp only [if_true, reduceCtorEq, if_false, crOf, Option.some.injEq, Prod.mk.injEq] at h1 h2
+      obtain ⟨rfl, rfl⟩ := h2
+      exact hnocr .app b h1
+  · intro t' x; rw [hg, hcl]
+    have ha : alkOf (setC (setN (updCl s s.n Client.fresh) (s.n + 1)) t (.cr .insLock s.n)) t' = alkOf s t' := by
+      cases t' <;> simp [alkOf, setN]
+    rw [ha]; split
+    · intro e; simp [knownC, refsC] at e
+    · intro e; split
+      · rename_i e2; subst e2; have := hl.known t' _ e; rw [hfr.1] at this; cases this
+      · exact hl.known t' x e
+  · intro c'; rw [hcl]; split
+    · simp [Client.fresh, hi]
+    · exact hl.zero_inp c'
+  · intro t' c'; rw [hg, hcl]; split
+    · intro e; cases e
+    · intro e; split
+      · rename_i e2; subst e2; exact (hnocr t' true (by rw [e]; rfl)).elim
+      · exact hl.zero_c t' c' e
+
+/-- the iterator only ever finds clients that are in the list -/
+theorem pickBelow_linked (s : State) (b : Bool) : ∀ k c, pickBelow s b k = some c → (s.cl c).linked = true := by
+  intro k; induction k with
+  | zero => intro c h; simp [pickBelow] at h
+  | succ k ih =>
+    intro c h; simp only [pickBelow] at h; split at h
+    · rename_i hc; simp only [Option.some.injEq] at h; subst h
+      simp only [Bool.and_eq_true] at hc; exact hc.1
+    · exact ih c h
+
+theorem pick_linked {s : State} {b : Bool} {prev : Option Nat} {c : Nat} (h : pick s b prev = some c) :
+    (s.cl c).linked = true := pickBelow_linked s b _ c h
 
 end VncModel.Threads
